@@ -277,6 +277,12 @@ class ThreadingProxy:
             return sched.make_lock()
         return _threading.Lock()
 
+    def RLock(self):
+        sched = self._sim.sched
+        if sched is not None:
+            return sched.make_rlock()
+        return _threading.RLock()
+
 
 def _open_proxy(sim):
     def open_(file, mode='r', *a, **k):
